@@ -123,6 +123,9 @@ def handle1 (j : J) : Except String J := do
   | "eth_text" =>
     lift ((if var.eth then ethOfTextS else ethOfText) (txt (← j.bytes "t"))) fun b =>
       pure (J.mk [("raw", J.ofBytes b), ("str", jtxt (ethToStr ':' b)), ("dash", jtxt (ethToStr '-' b))])
+  | "eth_raw" =>
+    let b ← j.bytes "raw"
+    pure (J.mk [("raw", J.ofBytes b), ("str", jtxt (ethToStr ':' b)), ("dash", jtxt (ethToStr '-' b))])
   | "eth_seq" =>
     lift ((if var.seq then ethOfSeqS else ethOfSeq) (← (← j.get "vals").asInts)) fun b => pure (J.mk [("raw", J.ofBytes b)])
   | "dpid_str" =>
